@@ -31,15 +31,5 @@ def observe(R, cases, cfgs, faults_every=0):
 
 
 def validate(R, which, obs, name):
-    bad = []
-    shard = 20000
-    for s in range(0, len(obs), shard):
-        part = obs[s:s + shard]
-        path = R.path("obs", "%s-%d.ndjson" % (name, s))
-        vlib.write_ndjson(path, part)
-        res = R.tlc("PrintCheck", "INIT Init\nNEXT Next\nINVARIANT Chk\nCONSTANT WHICH = \"%s\"\n" % which,
-                    env={"VERIF_OBS": path}, name="%s-check%d" % (name, s), workers=1, timeout=3000)
-        if res.distinct != len(part) + 1:
-            raise vlib.MachineryError("PrintCheck visited %d of %d records" % (res.distinct - 1, len(part)))
-        bad += [s + p[1] - 1 for p in res.prints if p and p[0] == "MISMATCH"]
-    return sorted(bad)
+    cfg = "INIT Init\nNEXT Next\nINVARIANT Chk\nCONSTANT WHICH = \"%s\"\n" % which
+    return sorted(s + p[1] - 1 for s, p in R.pvalidate("PrintCheck", obs, 2500, name, cfg=cfg, extra_states=1) if p[0] == "MISMATCH")
